@@ -95,6 +95,7 @@ type WCfg struct {
 	ExecDelay   bool
 	Stalls      bool
 	Pokers      int // tasks that call IsActive / Context / Trigger concurrently
+	SmallReaders bool // ReadFrom / reader messages carry at most one streaming chunk (1024 bytes)
 }
 
 type pokeEvent struct{}
@@ -144,6 +145,9 @@ func (e *Env) drawCalls(cfg *WCfg, n, writer, phase int, calls *[]*WCall) []*WCa
 			nsz = len(sizeTable)
 		}
 		c.Size = sizeTable[e.P(nsz)]
+		if cfg.SmallReaders && c.Entry == EReadFrom && c.Size > 1024 {
+			c.Size = 1024
+		}
 		if c.Entry == EWritev || c.Entry == ECtxWritev {
 			c.Parts = 1 + e.P(3)
 		}
@@ -538,7 +542,7 @@ func (h *WHist) OracleWireIntegrity(e *Env, orderClauses bool) []wseg {
 		bounds[s.Off+len(h.Calls[s.Call].Want)] = true
 	}
 	for _, ev := range conn.Log {
-		if isWriteEv(ev.Kind) && !bounds[ev.Off+ev.N] {
+		if isWriteEv(ev.Kind) && (ev.Off+ev.N >= len(bounds) || !bounds[ev.Off+ev.N]) {
 			e.Violate("whole", "split-across-writes", "transport write ending at wire offset %d cuts a payload", ev.Off+ev.N)
 		}
 	}
